@@ -46,8 +46,12 @@ def gen(ctx):
     cases = []
     for _ in range(ctx.n(220, 3000)):
         m, n = rng.randint(2, 9), rng.randint(1, 6)
-        alpha = rng.choice([[0, 1], [0, 1, 2], [1, 2, 3, 4], None, "near"])
-        if alpha == "near":
+        alpha = rng.choice([[0, 1], [0, 1, 2], [1, 2, 3, 4], None, "near", "bigint"])
+        bigint = alpha == "bigint"
+        if bigint:
+            # integer-typed matrix with values that differ only beyond the 53-bit mantissa of a double
+            mat = [[2 ** 53 + rng.randint(0, 3) for _ in range(n)] for _ in range(m)]
+        elif alpha == "near":
             # distinct values that are equal up to ~1e-7 relative: a tolerance-based comparison would merge them
             base = [rng.choice([0.5, 1.0, 250000.0, 3.0e6, 1e-3]) for _ in range(n)]
             mat = [[base[j] * (1 + rng.randint(0, 2) * 2.0 ** -24) for j in range(n)] for _ in range(m)]
@@ -55,7 +59,7 @@ def gen(ctx):
             mat = [[float(rng.choice(alpha)) for _ in range(n)] for _ in range(m)]
         else:
             mat = G.matrix(rng, m, n, "dyadic", positive=False, ties=0.5, dups=0.2)
-        dm = {"matrix": mat, "objectives": G.objectives(rng, n), "weights": [1.0] * n,
+        dm = {"matrix": mat, "objectives": G.objectives(rng, n), "weights": [1.0] * n, "int_matrix": bigint,
               "alternatives": G.labels(rng, G.LABEL_POOL_ALT, m), "criteria": G.labels(rng, G.LABEL_POOL_CRIT, n)}
         cases.append({"dm": dm, "calls": _calls(rng, m, rng.randint(3, 9))})
     if ctx.thorough:
